@@ -20,7 +20,8 @@ ASSUMPTIONS = [
     "decisions are drawn from the current arm list (the library does not validate them)",
     "exactly-summable rewards (multiples of 1/8) are compared with 1e-12 relative tolerance, general floats "
     "with 1e-9 * max(1, max|reward|) (1e-6 for soft-max ratios)",
-    "Popularity with all arm means zero (0/0) only asserts finite, non-negative expectations",
+    "Popularity with all arm means zero (0/0): the shares are not documented (a new arm holds 0 next to the uniform "
+    "shares of the older ones); asserted: finite, non-negative, summing to one",
     "if the exact sampler replay differs, a 6-sigma test of 4000 draws against the reference parameters "
     "arbitrates before a mismatch counts",
 ]
@@ -151,6 +152,11 @@ def check_state(mab, r, cfg, family, mq, step, events):
             events.append("popularity_zero_total")
             if list(held) != arms or not all(math.isfinite(v) and v >= 0 for v in held.values()):
                 raise Violation("popularity_value", "step %d: zero total, holds %r" % (step, held))
+            # nothing to normalise (0/0): which arm gets which share is not documented (a new arm holds 0 next to the
+            # uniform shares of the others), but the held values are still "normalised to sum to one"
+            if not ops.float_eq(math.fsum(held.values()), 1.0, rtol=1e-12):
+                raise Violation("popularity_value", "step %d: every arm mean is zero, the arms hold %r, which does "
+                                "not sum to one" % (step, held), bucket="popularity_value:zero_total_sum")
         else:
             _cmp_dict(imp.arm_to_expectation, want, _tol(family, r), "popularity_value",
                       "step %d arm_to_expectation" % step)
